@@ -76,6 +76,56 @@ def handler_catches(h: ast.ExceptHandler, exc: str | None) -> bool:
     return False
 
 
+# consumers of an iterator: which of them run it to its end
+EXHAUSTING = {"list", "tuple", "set", "frozenset", "sorted", "sum", "max", "min", "dict", "deque", "collections.deque"}
+STOPPING_EARLY = {"any", "all", "next"}
+
+
+def why_conditional(e: ast.AST, root: ast.AST | None, stop: ast.AST | None = None) -> str | None:
+    """Evaluating ``root`` (one CFG node: a simple statement or one atom of a branch condition) - does that always
+    evaluate its sub-expression ``e`` (exceptions aside)?  None when it does, otherwise the reason it may not:
+    a later operand of `and`/`or`, a branch of a conditional expression, a later operand of a chained comparison, the
+    element / filter of a comprehension (zero or some times), the body of a lambda or nested function (not now), or
+    anything inside an `assert` (removed under -O).  The CFG splits only the conditions of if/while into atoms, so this
+    is the same question asked inside one node.  ``stop``: an ancestor at which the climb ends (the caller reasons about
+    that construct itself, e.g. the comprehension that plays the loop)."""
+    if root is None:
+        return "not part of a statement of this function"
+    cur = e
+    while cur is not root and cur is not stop:
+        par = getattr(cur, "_parent", None)
+        if par is None:
+            return "not part of that statement"
+        if par is stop:
+            return None
+        if isinstance(par, ast.BoolOp) and cur is not par.values[0]:
+            i = next(i for i, v in enumerate(par.values) if v is cur)
+            word = "or" if isinstance(par.op, ast.Or) else "and"
+            return f"it is a later operand of `{word}`: not evaluated once `{norm(par.values[i - 1])}` (or an earlier operand) has decided the result"
+        if isinstance(par, ast.IfExp) and cur is not par.test:
+            return f"it is a branch of the conditional expression on `{norm(par.test)}`"
+        if isinstance(par, ast.Compare) and any(cur is c for c in par.comparators[1:]):
+            return "it is a later operand of a chained comparison"
+        if isinstance(par, ast.Lambda):
+            return "it is the body of a lambda: evaluated when (if ever) the lambda is called"
+        if isinstance(par, (ast.FunctionDef, ast.AsyncFunctionDef)) and any(cur is s for s in par.body):
+            return "it is inside a nested function: evaluated when (if ever) that is called"
+        if isinstance(par, ast.comprehension):
+            comp = getattr(par, "_parent", None)
+            first = comp is not None and comp.generators[0] is par and cur is par.iter
+            if not first:
+                return "it is evaluated per element of a comprehension (a filter or an inner iterable: zero or more times)"
+            cur = comp  # the outermost iterable is evaluated where the comprehension is
+            continue
+        if isinstance(par, (ast.ListComp, ast.SetComp, ast.DictComp, ast.GeneratorExp)):
+            lazy = " lazily, as far as its consumer pulls" if isinstance(par, ast.GeneratorExp) else ""
+            return f"it is the element of a comprehension: evaluated once per element{lazy}"
+        if isinstance(par, ast.Assert):
+            return "it is inside an `assert`, which is removed under -O"
+        cur = par
+    return None
+
+
 class Unit:
     """one function scope."""
 
@@ -275,6 +325,18 @@ class Flow:
         out.sort(key=lambda c: (c.lineno, c.col_offset))
         return out
 
+    def run_node(self, e: ast.AST, unit: Unit) -> Node | None:
+        """the CFG node that evaluates e - when passing that node always evaluates e (not a short-circuited operand,
+        a conditional-expression branch, a comprehension element ...); else None."""
+        n = unit.cfg.node_of(e)
+        if n is None or why_conditional(e, n.ast) is not None:
+            return None
+        return n
+
+    def why_not_run(self, e: ast.AST, unit: Unit) -> str | None:
+        n = unit.cfg.node_of(e)
+        return why_conditional(e, n.ast if n is not None else None)
+
     def bindings(self, unit: Unit) -> list[tuple[ast.Call, ast.AST | None]]:
         """(call in unit, bound value as written in unit) for every rebinding of a storage ContextVar the unit performs:
         `<storage>.set(v)` itself, or - one level of helper extraction - a call of a helper of this module that on
@@ -297,7 +359,7 @@ class Flow:
                     defs = cu.rd.reaching(sn, v.id)
                     if len(defs) != 1 or next(iter(defs)).kind != "param":
                         continue
-                    if not cu.cfg.all_paths_pass(cu.cfg.entry, [cu.cfg.exit], [sn]):
+                    if why_conditional(s, sn.ast) is not None or not cu.cfg.all_paths_pass(cu.cfg.entry, [cu.cfg.exit], [sn]):
                         continue
                     recv = s.func.value if isinstance(s.func, ast.Attribute) else None
                     if isinstance(recv, ast.Name) and any(d.kind == "param" for d in cu.rd.reaching(sn, recv.id)):  # the ContextVar is a parameter too: this site must hand a storage in
